@@ -32,3 +32,65 @@ package udf
 //@     invariant forall k string :: has(ints, k) ==> seen(k) && typeis(fields[k], int64)
 //@     invariant forall k string :: has(bools, k) ==> seen(k) && typeis(fields[k], bool)
 //@     invariant forall k string :: seen(k) ==> has(fields, k) && udfType(fields[k])
+
+// The inverse: every entry of the four maps becomes a field of the same dynamic type and value
+// (bools win over floats over ints over strings when a peer sends overlapping keys).
+//@ func (*Server).typeMapsToFields
+//@   props C19 C05
+//@   modifies nothing
+//@   ensures result != nil
+//@   ensures forall k string :: has(result, k) <==> (has(strs, k) || has(floats, k) || has(ints, k) || has(bools, k))
+//@   ensures forall k string :: has(bools, k) ==> typeis(result[k], bool) && as(result[k], bool) == bools[k]
+//@   ensures forall k string :: has(floats, k) && !has(bools, k) ==> typeis(result[k], float64) && as(result[k], float64) == floats[k]
+//@   ensures forall k string :: has(ints, k) && !has(floats, k) && !has(bools, k) ==> typeis(result[k], int64) && as(result[k], int64) == ints[k]
+//@   ensures forall k string :: has(strs, k) && !has(ints, k) && !has(floats, k) && !has(bools, k) ==> typeis(result[k], string) && as(result[k], string) == strs[k]
+//@   loop 1
+//@     modifies map(fields)
+//@     invariant fields != nil && fields == before(fields)
+//@     invariant forall k string :: has(fields, k) <==> seen(k)
+//@     invariant forall k string :: seen(k) ==> typeis(fields[k], string) && as(fields[k], string) == strs[k]
+//@     invariant forall k string :: seen(k) ==> has(strs, k)
+//@   loop 2
+//@     modifies map(fields)
+//@     invariant fields != nil && fields == before(fields)
+//@     invariant forall k string :: has(fields, k) <==> (has(strs, k) || seen(k))
+//@     invariant forall k string :: seen(k) ==> has(ints, k) && typeis(fields[k], int64) && as(fields[k], int64) == ints[k]
+//@     invariant forall k string :: has(strs, k) && !seen(k) ==> typeis(fields[k], string) && as(fields[k], string) == strs[k]
+//@   loop 3
+//@     modifies map(fields)
+//@     invariant fields != nil && fields == before(fields)
+//@     invariant forall k string :: has(fields, k) <==> (has(strs, k) || has(ints, k) || seen(k))
+//@     invariant forall k string :: seen(k) ==> has(floats, k) && typeis(fields[k], float64) && as(fields[k], float64) == floats[k]
+//@     invariant forall k string :: has(ints, k) && !seen(k) ==> typeis(fields[k], int64) && as(fields[k], int64) == ints[k]
+//@     invariant forall k string :: has(strs, k) && !has(ints, k) && !seen(k) ==> typeis(fields[k], string) && as(fields[k], string) == strs[k]
+//@   loop 4
+//@     modifies map(fields)
+//@     invariant fields != nil && fields == before(fields)
+//@     invariant forall k string :: has(fields, k) <==> (has(strs, k) || has(ints, k) || has(floats, k) || seen(k))
+//@     invariant forall k string :: seen(k) ==> has(bools, k) && typeis(fields[k], bool) && as(fields[k], bool) == bools[k]
+//@     invariant forall k string :: has(floats, k) && !seen(k) ==> typeis(fields[k], float64) && as(fields[k], float64) == floats[k]
+//@     invariant forall k string :: has(ints, k) && !has(floats, k) && !seen(k) ==> typeis(fields[k], int64) && as(fields[k], int64) == ints[k]
+//@     invariant forall k string :: has(strs, k) && !has(ints, k) && !has(floats, k) && !seen(k) ==> typeis(fields[k], string) && as(fields[k], string) == strs[k]
+
+//@ func (*Server).doResponse
+//@   trusted
+//@   modifies nothing
+
+// What the protobuf decoder guarantees about a decoded Response: a set oneof wrapper is non-nil
+// and so is the message inside it. Everything else (which message, in which order, with which
+// numbers) is chosen by the peer.
+//@ spec decodedOK(r *agent.Response) bool = r != nil
+//@     && (typeis(r.Message, *agent.Response_Error) ==> as(r.Message, *agent.Response_Error) != nil && as(r.Message, *agent.Response_Error).Error != nil)
+//@     && (typeis(r.Message, *agent.Response_Begin) ==> as(r.Message, *agent.Response_Begin) != nil && as(r.Message, *agent.Response_Begin).Begin != nil)
+//@     && (typeis(r.Message, *agent.Response_Point) ==> as(r.Message, *agent.Response_Point) != nil && as(r.Message, *agent.Response_Point).Point != nil)
+//@     && (typeis(r.Message, *agent.Response_End) ==> as(r.Message, *agent.Response_End) != nil && as(r.Message, *agent.Response_End).End != nil)
+
+// "every message from a UDF process": no response, in any order, may panic the server; batch
+// reassembly: Begin opens an empty batch, End closes it.
+//@ func (*Server).handleResponse
+//@   props C19 C05
+//@   requires decodedOK(response)
+//@   ensures typeis(response.Message, *agent.Response_Begin) && result == nil ==>
+//@       (s.begin == as(response.Message, *agent.Response_Begin).Begin && s.points != nil && len(s.points) == 0) || (s.begin == old(s.begin) && s.points == old(s.points))
+//@   ensures typeis(response.Message, *agent.Response_End) && result == nil ==> (s.begin == nil && s.points == nil) || (s.begin == old(s.begin) && s.points == old(s.points))
+//@   ensures typeis(response.Message, *agent.Response_Point) && old(s.points) != nil && result == nil ==> len(s.points) == old(len(s.points)) + 1 || s.points == old(s.points)
